@@ -386,6 +386,78 @@ func (g *PipeGen) Op(kind string, s Schema, joinDepth int) (*Op, Schema) {
 	panic("gen: operator kind " + kind)
 }
 
+// WideOp makes a project / extend / sort / summarize with n elements over s.
+func (g *PipeGen) WideOp(kind string, n int, s Schema) (*Op, Schema) {
+	op := &Op{K: kind}
+	usable := []SCol{}
+	for _, c := range s {
+		if !c.Amb && c.Ty != TArr {
+			usable = append(usable, c)
+		}
+	}
+	if len(usable) == 0 {
+		return g.Op("count", s, 0)
+	}
+	ref := func(i int) (SCol, *E) {
+		c := usable[i%len(usable)]
+		return c, &E{K: "name", Parts: []Ident{c.Name}}
+	}
+	switch kind {
+	case "project", "extend":
+		var ns Schema
+		if kind == "extend" {
+			ns = append(ns, s...)
+		}
+		for i := 0; i < n; i++ {
+			c, x := ref(i)
+			id := g.freshName(append(append(Schema{}, s...), ns...))
+			if c.Ty == TInt {
+				x = Bin("+", x, Num(fmt.Sprint(i)))
+			}
+			op.Cols = append(op.Cols, Col{Name: &id, X: x})
+			ns = append(ns, SCol{id, c.Ty, false})
+		}
+		if u := g.uniqueKey(s); u != nil && kind == "project" {
+			id := u.Parts[0]
+			op.Cols = append(op.Cols, Col{Name: &id})
+			ns = append(ns, SCol{id, TInt, false})
+		}
+		return op, ns
+	case "sort":
+		for i := 0; i < n; i++ {
+			_, x := ref(i)
+			op.Terms = append(op.Terms, SortTerm{X: x, Dir: []string{"", "asc", "desc"}[i%3], Nulls: []string{"", "first", "last", ""}[i%4]})
+		}
+		if u := g.uniqueKey(s); u != nil {
+			op.Terms = append(op.Terms, SortTerm{X: u})
+		}
+		return op, s
+	default: // summarize: n aggregates by two keys
+		var ns Schema
+		op.K = "summarize"
+		op.HasBy = true
+		for i := 0; i < 2; i++ {
+			c, x := ref(i + 1)
+			id := g.freshName(append(append(Schema{}, s...), ns...))
+			op.By = append(op.By, Col{Name: &id, X: x})
+			ns = append(ns, SCol{id, c.Ty, false})
+		}
+		ints := s.cols()[TInt]
+		for i := 0; i < n; i++ {
+			var x *E
+			if len(ints) > 0 && i%4 != 0 {
+				x = Call([]string{"sum", "min", "max"}[i%3], &E{K: "name", Parts: []Ident{ints[i%len(ints)]}})
+			} else {
+				x = Call("count")
+			}
+			id := g.freshName(append(append(Schema{}, s...), ns...))
+			op.Cols = append(op.Cols, Col{Name: &id, X: x})
+			ns = append(ns, SCol{id, TInt, false})
+		}
+		return op, ns
+	}
+}
+
 // Kinds are the eleven tabular operators without join.
 var Kinds = []string{"count", "where", "sort", "take", "top", "project", "extend", "summarize", "as", "render", "where"}
 
